@@ -142,7 +142,8 @@ def run(ck):
         key = (kind, knob if kind != "constant-error-not-reported" else "", cls)
         if fid is None and key in reported:
             continue
-        reported.add(key)
+        if fid is None:      # a listed finding never hides a later unlisted violation of the same class
+            reported.add(key)
         ck.violation({"kind": kind, "finding": fid, "class": cls, "context": cx, "result": r[:1500], "wgsl": unq(s[1:-1]), "how": how},
                      found_input=True)
     ck.extra["results_per_knob"] = tally
